@@ -37,9 +37,14 @@ TRUSTED = ['pyarrow slice/take/concat_arrays, numpy arange/nonzero/basic slicing
            '(harness/c16_util.py export); when the protocol or the list / fixed-size-binary layout is '
            'not there the kernel check of that history is skipped and counted, not reported',
            'derived-vs-fresh comparison of length/area/intersects/hilbert_distance is a '
-           'Python-side metamorphic check (those kernels are modelled by their own properties)']
+           'Python-side metamorphic check (those kernels are modelled by their own properties)',
+           'multi-source family (harness/c16_mixed.py): which container pandas returns for pieces of '
+           'different dtypes is not predicted; a geometry scalar is read by putting it into a '
+           'one-element array of its own class (a point: of its own subtype, inferred by the '
+           'constructor) and reading that through the arrow protocol; numpy casts define "converted by '
+           'value" when scalars are re-wrapped in an array of another subtype']
 
-IMPORTS = 'Model.Num Model.Arrow Model.Derive'
+IMPORTS = 'Model.Num Model.Arrow Model.Derive'      # (the multi-source family: + Model.DeriveMulti)
 CASE_TY = 'list (option elem) * repr * list obs'
 RES_TY = 'list Z'
 FN = 'check_case'
